@@ -20,6 +20,10 @@ class WouldBlockForever(BaseException):
     pass
 
 
+class Livelock(BaseException):
+    pass
+
+
 class World:
     def __init__(self, history: List[Tuple[Tuple[int, ...], Optional[str], bool]], lag: bool = False) -> None:
         self.history = history
@@ -48,6 +52,10 @@ class World:
         self.mid_sites: List[Tuple[str, str]] = []
 
     def point(self, site: str) -> None:
+        self.calls_in_tick = getattr(self, "calls_in_tick", 0) + 1
+        if self.calls_in_tick > 20000:
+            # the manager keeps calling into the process world without ever going back to sleep: it is stuck
+            raise Livelock(f"{self.calls_in_tick} calls into the process world within one supervision tick (last: {site})")
         if self.in_sleep or self.in_inject or not self.mid_now:
             return
         self.calls += 1
@@ -83,6 +91,7 @@ class World:
         entry = self.history[self.tick]
         die, sig, fchange = entry[0], entry[1], entry[2]
         self.tick += 1
+        self.calls_in_tick = 0
         self.rec("tick")
         if self.queue is not None:
             self.queue.flush()
@@ -272,6 +281,9 @@ def run_history(workers: int, max_fails: int, history: List[Any], lag: bool = Fa
         except WouldBlockForever as exc:
             out["blocked"] = True
             out["crash"] = f"join() on a live process nobody terminated: {exc}"
+        except Livelock as exc:
+            out["blocked"] = True
+            out["crash"] = f"manager stuck: {exc}"
         except Exception as exc:  # noqa: BLE001
             out["crash"] = repr(exc)
             world.rec("crash", repr(exc))
